@@ -22,11 +22,21 @@ orthorhombic boxes), otherwise it is counted as ambiguous.
 Resource bound: get_atoms allocates ``m * (2*ceil(r/cell)+1)**3 * max_cell_len``
 int32 elements, so the effective radius is capped so that this stays below
 MAX_ELEMS; the int32 overflow of that product is open finding C14-F1.
+
+Outcomes that are accepted although the unchanged tree does not show them (nothing in the
+statement or the docstrings rules them out; the label tells which one occurred): a refusal of an
+all-False selection with any exception; ValueError for a periodic radius >= 0.9 x the smallest box
+height (only 27 images can be searched); ValueError / OverflowError for queries with +-inf
+components or so far away that the cell index does not fit a C int (NaN rows are ordinary input:
+biotite's lDDT code relies on them).  After such a refusal an ordinary query must still be answered.
+Kept because a docstring fixes them: dtype int32 of the index form ("dtype=int32"), no -1 in the
+result for a single position (class example: ``atom_array[cell_list.get_atoms(pos, radius=7.0)]``).
 """
 
 import itertools
 import math
 import os
+import warnings
 
 import numpy as np
 from hypothesis import strategies as st
@@ -36,16 +46,22 @@ from vlib import Outcome, Sub, findings
 PROPERTY = "C14"
 RULE = (
     "1..60 float32 points (uniform, clustered, collinear, duplicated, on multiples of the cell size; "
-    "extent 1e-3..1e3, optional offset), cell size extent/50..10*extent, optional selection, ndarray or "
-    "AtomArray input, optional orthorhombic/triclinic box (argument or attribute); query batches inside, on "
+    "extent 1e-3..1e3, optional offset, sometimes integral), cell size extent/50..10*extent, optional selection, "
+    "float32/float64/int64 ndarray (C order, row/column strided, Fortran order) or AtomArray input, optional "
+    "orthorhombic/triclinic box (argument or attribute; lower triangular, axes permuted, one axis flipped = "
+    "left-handed, rotated about an axis); query batches inside, on "
     "the border of, outside and far outside the bounding box with scalar or per-query radii "
     "(0, tiny, around the k-th neighbour distance, multiples of the cell size, > extent). "
     "Non-trivial = >= 5 selected atoms in >= 2 cells and a query whose result is neither empty nor everything"
 )
 
 EPS32 = float(np.finfo(np.float32).eps)
-TOLF = float(os.environ.get("VERIF_C14_TOLF", "64"))  # 64 per DESIGN section 3; the variable is a calibration/debug knob only
+TOLF_DEFAULT = 64.0  # DESIGN section 3
+# calibration/debug knob only; a value other than the default is written into the labels of every case
+TOLF = float(os.environ.get("VERIF_C14_TOLF", TOLF_DEFAULT))
 MAX_ELEMS = 1_000_000  # int32 elements of the worst-case index array of one call
+MAX_ELEMS_SINGLE = 10_000_000  # ... when there is one query only (cell radius 53 > the 50 cells of the finest grid)
+INT_RANGE = 2.0**30  # |query - origin| / cell_size beyond this: the cell index does not fit a C int
 MAX_CELLS = 400_000  # cells of the grid
 INT32_MAX = 2**31 - 1
 
@@ -147,6 +163,24 @@ def case_arrays(case):
     return A32, sel, B32, Q32
 
 
+def with_layout(a, how):
+    """The same values in another memory layout: "row" = every second row of a larger array,
+    "col" = every second column, "F" = Fortran order (1-D arrays: strided for every kind).
+    The skipped elements hold a sentinel, so that reading with the wrong strides shows."""
+    if how is None:
+        return a
+    a = np.asarray(a)
+    if a.ndim == 1 or how == "row":
+        big = np.full((2 * a.shape[0],) + a.shape[1:], 77, dtype=a.dtype)
+        big[::2] = a
+        return big[::2]
+    if how == "col":
+        big = np.full((a.shape[0], 2 * a.shape[1]), 77, dtype=a.dtype)
+        big[:, ::2] = a
+        return big[:, ::2]
+    return np.asfortranarray(a)
+
+
 def plan(A64, sel, B64, cs, periodic):
     """Approximate picture of the grid the implementation builds (float64):
     dims, number of cells, max occupancy (upper bound used for the resource
@@ -185,8 +219,10 @@ def plan(A64, sel, B64, cs, periodic):
 
 
 def max_cell_radius(m, occ_bound):
-    """largest c with m * (2c+1)^3 * occ_bound <= MAX_ELEMS (at least 1)."""
-    side = (MAX_ELEMS / (max(m, 1) * occ_bound)) ** (1.0 / 3.0)
+    """largest c with m * (2c+1)^3 * occ_bound <= MAX_ELEMS (at least 1); a single query may use
+    MAX_ELEMS_SINGLE so that "cell radius larger than the finest grid in all dimensions" is reached."""
+    elems = MAX_ELEMS_SINGLE if m <= 1 else MAX_ELEMS
+    side = (elems / (max(m, 1) * occ_bound)) ** (1.0 / 3.0)
     return max(1, int((side - 1) // 2))
 
 
@@ -227,9 +263,17 @@ def build(case, o):
         return None
 
     kind = case.get("input", "f32")
+    if kind == "i64" and not (np.isfinite(A64).all() and (A64 == np.round(A64)).all()):
+        kind = "f64"  # reached by shrinking only: integer input needs integral coordinates
     box_via = case.get("box_via", "arg" if periodic else None)
     box_dtype = np.float64 if case.get("box_f64") else np.float32
     kwargs = {}
+    if TOLF != TOLF_DEFAULT:
+        o.label(f"TOLF={TOLF:g}")
+    cs_arg = cs
+    if case.get("cs_int") and cs == int(cs):
+        cs_arg = int(cs)  # docstring example: CellList(atom_array, cell_size=5)
+        o.label("cell_size_int")
     if kind == "atoms":
         atoms = struc.AtomArray(n)
         atoms.coord = A32.copy()
@@ -240,12 +284,20 @@ def build(case, o):
             else:
                 atoms.box = B32.copy()
         arg0 = atoms
+    elif kind == "i64":
+        arg0 = A64.astype(np.int64)
     elif kind == "f64":
         arg0 = A64.copy()
     else:
         arg0 = A32.copy()
+    if kind != "atoms" and case.get("coord_layout"):
+        arg0 = with_layout(arg0, case["coord_layout"])
+        o.label("coord_layout_" + case["coord_layout"])
     if B32 is not None and (kind != "atoms" or box_via in ("arg", "both")):
         kwargs["box"] = B32.astype(box_dtype)
+        if case.get("box_layout"):
+            kwargs["box"] = with_layout(kwargs["box"], case["box_layout"])
+            o.label("box_layout_" + case["box_layout"])
     if periodic:
         kwargs["periodic"] = True
     if case.get("sel") is not None:
@@ -282,21 +334,40 @@ def build(case, o):
     if not np.isfinite(A64).all():
         o.label("nan_unselected")
     if periodic:
-        ortho = bool(B64[1, 0] == 0 and B64[2, 0] == 0 and B64[2, 1] == 0)
+        G = B64 @ B64.T
+        dg = np.sqrt(np.diag(G))
+        ortho = bool(all(abs(G[i, j]) <= 1e-6 * dg[i] * dg[j] for i, j in ((0, 1), (0, 2), (1, 2))))
         o.label("orthorhombic" if ortho else "triclinic", "box_" + str(box_via))
+        lower = bool(B64[0, 1] == 0 and B64[0, 2] == 0 and B64[1, 2] == 0)
+        if case.get("orient") not in (None, "identity"):
+            o.label("box_" + str(case["orient"]))
+        if not lower:
+            o.label("box_not_lower_triangular")
+        if np.linalg.det(B64) < 0:
+            o.label("box_lefthanded")
     elif B32 is not None:
         o.label("open_with_ignored_box")
 
     if case.get("sel") is not None and not sel.any():
-        # nothing is documented for an empty selection: the constructor may refuse it
-        # (ValueError) or build a list that never returns anything
+        # nothing is documented for an empty selection: the constructor may refuse it (with
+        # whatever exception) or build a list that never returns anything
         try:
-            cl = CellList(arg0, cs, **kwargs)
-        except ValueError:
-            o.label("all_false_valueerror")
+            cl = CellList(arg0, cs_arg, **kwargs)
+        except Exception as e:  # noqa: BLE001 - only the constructor call is inside the try
+            o.label("all_false_refused_" + type(e).__name__)
             return None
+        o.label("all_false_accepted")
+    elif case.get("sel_strided"):
+        # C14-F2: a strided view of the documented dtype / shape.  Reported under the harness' clause
+        # for escaping exceptions, but pinned to the constructor call.
+        try:
+            cl = CellList(arg0, cs_arg, **kwargs)
+        except ValueError as e:
+            o.fail("unexpected_exception", f"ValueError: {e} [CellList constructor, strided selection]")
+            return None
+        o.label("sel_strided")
     else:
-        cl = CellList(arg0, cs, **kwargs)
+        cl = CellList(arg0, cs_arg, **kwargs)
 
     hmin = None
     if periodic:
@@ -317,11 +388,127 @@ def build(case, o):
     }
 
 
-def query_array(case, Q32, single):
+def query_array(case, Q32, single, o=None):
     q = Q32[0] if single else Q32
-    if case.get("q_f64"):
+    integral = bool(np.isfinite(q).all() and (q == np.round(q)).all() and (np.abs(q) < 2.0**31).all())
+    if case.get("q_int") and integral:
+        q = q.astype(np.int64)  # docstring example: get_atoms(np.array([1,2,3]), radius=7.0)
+        if o is not None:
+            o.label("q_int")
+    elif case.get("q_f64"):
         q = q.astype(np.float64)
-    return q.copy()
+    else:
+        q = q.copy()
+    if case.get("q_layout"):
+        q = with_layout(q, case["q_layout"])
+        if o is not None:
+            o.label("q_layout_" + case["q_layout"])
+    return q
+
+
+def out_of_int_range(ctx, Q64):
+    """Per query: a +-inf component, or a finite query so far away that its cell index does not fit a
+    C int (periodic: |q| / box height that large).  Neither the statement ("inside, on the border of,
+    outside and far outside") nor a docstring covers these; NaN rows are not in this class (biotite's
+    own lDDT code queries with NaN rows)."""
+    with np.errstate(invalid="ignore", over="ignore"):
+        inf = np.isinf(Q64).any(axis=1)
+        if ctx["periodic"]:
+            ratio = np.abs(Q64).max(axis=1) / ctx["hmin"]
+        else:
+            ratio = np.abs(Q64 - ctx["plan"]["lo"][None, :]).max(axis=1) / ctx["cs"]
+        far = np.isfinite(Q64).all(axis=1) & (ratio >= INT_RANGE)
+    return inf | far
+
+
+def _vm_bytes():
+    try:
+        with open("/proc/self/statm") as f:
+            return int(f.read().split()[0]) * os.sysconf("SC_PAGE_SIZE")
+    except Exception:  # noqa: BLE001
+        return 4 << 30
+
+
+def _call_nocap(o, fn):
+    """Calls whose resource cap was lifted (only the stored reproducer of C14-F1 does that) run in a
+    forked child with an address-space limit: should the worst-case length ever be computed in 64 bit,
+    the same call asks for gigabytes, which must neither kill the shard nor count as an alarm."""
+    from vlib.sandbox import run_sandboxed
+
+    def child():
+        import resource
+
+        soft, hard = resource.getrlimit(resource.RLIMIT_AS)
+        lim = _vm_bytes() + (2 << 30)
+        if hard != resource.RLIM_INFINITY:
+            lim = min(lim, hard)
+        resource.setrlimit(resource.RLIMIT_AS, (lim, hard))
+        return fn()
+
+    status, val = run_sandboxed(child, timeout=300.0)
+    if status == "ok":
+        o.label("nocap_value_returned")
+        return True, val
+    if status == "exc":
+        tname, text = val
+        if "MemoryError" in tname:
+            o.label("nocap_refused_MemoryError")
+            return False, None
+        o.fail("unexpected_exception", f"{tname}: {text} [sandboxed call, resource cap lifted]")
+        return False, None
+    if status == "timeout":
+        o.label("nocap_timeout")
+        return False, None
+    o.fail("unexpected_exception", f"process ended with {status} {val} [sandboxed call, resource cap lifted]")
+    return False, None
+
+
+def call_query(o, case, fn, accepted):
+    """(True, value of fn()) or (False, None).  `accepted` maps a label to the exception types that
+    nothing in the statement or the docstrings rules out for this input class (the label records which
+    one occurred); every other exception escapes to the harness (clause unexpected_exception)."""
+    if case.get("nocap"):
+        return _call_nocap(o, fn)
+    types = tuple(t for ts in accepted.values() for t in ts)
+    try:
+        return True, fn()
+    except types as e:
+        for label, ts in accepted.items():
+            if isinstance(e, ts):
+                o.label(label + "_" + type(e).__name__)
+                break
+        return False, None
+
+
+def refusal_classes(o, ctx, Q64, radii, tol):
+    """Input classes for which a refusal of the query is tolerated (audit A2, A3)."""
+    accepted = {}
+    if Q64 is not None and bool(out_of_int_range(ctx, Q64).any()):
+        o.label("q_out_of_int_range")
+        accepted["q_out_of_int_range_refused"] = (ValueError, OverflowError)
+    if ctx["periodic"] and any(float(r) + float(t) >= 0.9 * ctx["hmin"] for r, t in zip(radii, tol)):
+        # only 27 images can be searched: a radius of the order of the box height may be rejected
+        accepted["periodic_large_radius_refused"] = (ValueError,)
+    return accepted
+
+
+def after_refusal(o, ctx, case):
+    """A refused query must leave the cell list usable: an ordinary query (first selected atom, small
+    radius) is still answered exactly."""
+    sel = ctx["sel"]
+    if not sel.any():
+        return
+    i = int(np.flatnonzero(sel)[0])
+    Q64 = ctx["A"][i : i + 1]
+    r = _r32(0.5 * ctx["cs"] if not ctx["periodic"] else min(0.5 * ctx["cs"], 0.2 * ctx["hmin"]))
+    tol = TOLF * EPS32 * scales(ctx, Q64, [r], case)
+    must, may, mult, _ = classify(ctx, Q64, [r], tol, case)
+    what = f"get_atoms(atom {i}, {r!r}) after a refused query"
+    res = ctx["cl"].get_atoms(Q64[0].astype(np.float32), r)
+    rows = split_index_result(o, res, True, 1, ctx["n"], what)
+    if rows is not None:
+        check_rows(o, rows, must, may, ctx["n"], "get_atoms", what, mult=mult)
+    o.label("checked_after_refusal")
 
 
 def scales(ctx, Q64, radii, case):
@@ -580,22 +767,36 @@ def run_get_atoms(case):
     if mult is not None and bool(((mult[0] >= 2) & mult[2][:, None]).any()):
         o.label("periodic_several_copies_in_radius")
 
-    q = query_array(case, Q32, single)
+    q = query_array(case, Q32, single, o)
     if scalar:
-        rad_arg = radii[0] if not case.get("radius_np_scalar") else np.float32(radii[0])
+        if case.get("r_int") and radii[0] == int(radii[0]):
+            rad_arg = int(radii[0])
+            o.label("r_int")
+        else:
+            rad_arg = radii[0] if not case.get("radius_np_scalar") else np.float32(radii[0])
     else:
         rad_arg = np.array(radii, dtype=np.float64 if case.get("r_f64") else np.float32)
+        if case.get("r_strided"):
+            rad_arg = with_layout(rad_arg, "row")
+            o.label("r_strided")
     what = f"get_atoms(cell={ctx['cs']!r}, radii={radii!r})"
-    res = cl.get_atoms(q, rad_arg)
-    rows = split_index_result(o, res, single, m, n, what)
-    if rows is not None:
-        check_rows(o, rows, must, may, n, "get_atoms", what, mult=mult)
-        mask = cl.get_atoms(q, rad_arg, as_mask=True)
-        check_mask_agrees(o, mask, rows, single, m, n, what)
     o.label("single" if single else ("batch1" if m == 1 else "batch"), "r_scalar" if scalar else "r_per_query")
     radius_labels(o, ctx, radii, case)
     query_labels(o, ctx, Q64)
     result_labels(o, ctx, must, may)
+    if int(ctx["plan"]["dims"].max()) >= 30 and any(math.isfinite(r) and math.ceil(r / ctx["cs"]) >= int(ctx["plan"]["dims"].max()) for r in radii):
+        o.label("cell_radius_exceeds_fine_grid")
+    accepted = refusal_classes(o, ctx, Q64, radii, tol)
+    ok, val = call_query(o, case, lambda: (cl.get_atoms(q, rad_arg), cl.get_atoms(q, rad_arg, as_mask=True)), accepted)
+    if not ok:
+        if not o.violations and not case.get("nocap"):
+            after_refusal(o, ctx, case)
+        return o
+    res, mask = val
+    rows = split_index_result(o, res, single, m, n, what)
+    if rows is not None:
+        check_rows(o, rows, must, may, n, "get_atoms", what, mult=mult)
+        check_mask_agrees(o, mask, rows, single, m, n, what)
     return o
 
 
@@ -652,19 +853,35 @@ def run_cells(case):
         clause = "cells_superset_per_axis"
     o.ambiguous += 0
 
-    q = query_array(case, Q32, single)
+    q = query_array(case, Q32, single, o)
     if scalar:
         cr_arg = crs[0]
     else:
         cr_arg = np.array(crs, dtype=np.int64 if case.get("r_f64") else np.int32)
+        if case.get("r_strided"):
+            cr_arg = with_layout(cr_arg, "row")
+            o.label("r_strided")
     what = f"get_atoms_in_cells(cell={cs!r}, cell_radius={crs!r})"
+    o.label("single" if single else ("batch1" if m == 1 else "batch"), "r_scalar" if scalar else "r_per_query")
+    for c in crs:
+        o.label("cell_radius=0" if c == 0 else ("cell_radius=1" if c == 1 else "cell_radius>=2"))
+    if int(ctx["plan"]["dims"].max()) >= 30 and any(c >= int(ctx["plan"]["dims"].max()) for c in crs):
+        o.label("cell_radius_exceeds_fine_grid")
+    query_labels(o, ctx, Q64)
+    if ctx["plan"]["occupied"] >= 2:
+        o.label("cells>=2")
+    exotic = out_of_int_range(ctx, Q64)
+    accepted = refusal_classes(o, ctx, Q64, [], [])
     if case.get("default_radius") and scalar and crs[0] == 1:
-        res = cl.get_atoms_in_cells(q)
-        mask = cl.get_atoms_in_cells(q, as_mask=True)
         o.label("default_cell_radius")
+        ok, val = call_query(o, case, lambda: (cl.get_atoms_in_cells(q), cl.get_atoms_in_cells(q, as_mask=True)), accepted)
     else:
-        res = cl.get_atoms_in_cells(q, cr_arg)
-        mask = cl.get_atoms_in_cells(q, cr_arg, as_mask=True)
+        ok, val = call_query(o, case, lambda: (cl.get_atoms_in_cells(q, cr_arg), cl.get_atoms_in_cells(q, cr_arg, as_mask=True)), accepted)
+    if not ok:
+        if not o.violations and not case.get("nocap"):
+            after_refusal(o, ctx, case)
+        return o
+    res, mask = val
     rows = split_index_result(o, res, single, m, n, what)
     if rows is not None:
         nontriv = False
@@ -675,6 +892,14 @@ def run_cells(case):
                 miss_e = must_e[j] & ~got
                 if miss_e.any():
                     o.fail("cells_superset_euclid", f"{what}: query {j}: atoms {np.flatnonzero(miss_e).tolist()} within {dist[j]!r} are missing")
+                if not exotic[j]:
+                    # docstring: "radius of 0 = only the atoms in the same cell ... 1 = this cell and the
+                    # surrounding cells": whatever the grid origin and the rounding of the cell index
+                    # (floor or truncation), nothing farther than (c + 2) cells per axis can be returned
+                    with np.errstate(invalid="ignore"):
+                        beyond = got & (cheb[j] > (crs[j] + 2) * cs + tol[j])
+                    if beyond.any():
+                        o.fail("cells_not_beyond_shell", f"{what}: query {j}: atoms {np.flatnonzero(beyond).tolist()} are more than {crs[j]} + 2 cells away on one axis")
             miss = must[j] & ~got
             if miss.any():
                 o.fail(clause, f"{what}: query {j}: atoms {np.flatnonzero(miss).tolist()} within {dist[j]!r} (per axis) are missing")
@@ -695,12 +920,6 @@ def run_cells(case):
         check_mask_agrees(o, mask, rows, single, m, n, what)
         nsel = int(sel.sum())
         o.mark_nontrivial(nontriv and nsel >= 5 and ctx["plan"]["occupied"] >= 2)
-    o.label("single" if single else ("batch1" if m == 1 else "batch"), "r_scalar" if scalar else "r_per_query")
-    for c in crs:
-        o.label("cell_radius=0" if c == 0 else ("cell_radius=1" if c == 1 else "cell_radius>=2"))
-    query_labels(o, ctx, Q64)
-    if ctx["plan"]["occupied"] >= 2:
-        o.label("cells>=2")
     return o
 
 
@@ -728,7 +947,20 @@ def run_adjacency(case):
         pass
     o.ambiguous += int(may.sum())
     what = f"create_adjacency_matrix(cell={ctx['cs']!r}, thr={thr!r})"
-    M = np.asarray(cl.create_adjacency_matrix(thr))
+    radius_labels(o, ctx, [thr], case)
+    if ctx["plan"]["occupied"] >= 2:
+        o.label("cells>=2")
+    o.label("n>=5" if nsel >= 5 else "n<5")
+    thr_arg = thr
+    if case.get("r_int") and thr == int(thr):
+        thr_arg = int(thr)  # docstring example: create_adjacency_matrix(5)
+        o.label("r_int")
+    accepted = refusal_classes(o, ctx, None, [thr], [float(np.max(tol))])
+    ok, M = call_query(o, case, lambda: np.asarray(cl.create_adjacency_matrix(thr_arg)), accepted)
+    if not ok:
+        if not o.violations and not case.get("nocap"):
+            after_refusal(o, ctx, case)
+        return o
     if o.check(M.shape == (n, n) and M.dtype == np.bool_, "adjacency_layout", lambda: f"{what}: shape {M.shape} dtype {M.dtype}"):
         missing = must & ~M
         extra = M & ~must & ~may
@@ -750,10 +982,6 @@ def run_adjacency(case):
         else:
             o.label("res_empty")
         o.mark_nontrivial(k_true > 0 and k_false > 0 and nsel >= 5 and ctx["plan"]["occupied"] >= 2)
-    radius_labels(o, ctx, [thr], case)
-    if ctx["plan"]["occupied"] >= 2:
-        o.label("cells>=2")
-    o.label("n>=5" if nsel >= 5 else "n<5")
     return o
 
 
@@ -793,6 +1021,25 @@ def _draw_box(draw, ref_len):
 
 
 FACE_FRACS = [0.0, 0.0, 0.03, 0.97, 0.5, 0.25]
+
+# orientations of a periodic system (box rows and atoms are multiplied from the right): the boxes
+# drawn above are lower triangular (a along x, b in the xy plane, right-handed), which is only one
+# of the valid ways to write down a box
+ORIENT = {
+    "identity": [[1, 0, 0], [0, 1, 0], [0, 0, 1]],
+    "perm_yxz": [[0, 1, 0], [1, 0, 0], [0, 0, 1]],
+    "perm_zyx": [[0, 0, 1], [0, 1, 0], [1, 0, 0]],
+    "perm_xzy": [[1, 0, 0], [0, 0, 1], [0, 1, 0]],
+    "perm_yzx": [[0, 1, 0], [0, 0, 1], [1, 0, 0]],
+    "perm_zxy": [[0, 0, 1], [1, 0, 0], [0, 1, 0]],
+    "flip_x": [[-1, 0, 0], [0, 1, 0], [0, 0, 1]],
+    "flip_z": [[1, 0, 0], [0, 1, 0], [0, 0, -1]],
+    "rot_x": [[1, 0, 0], [0, 0.6, 0.8], [0, -0.8, 0.6]],
+    "rot_y": [[0.6, 0, -0.8], [0, 1, 0], [0.8, 0, 0.6]],
+    "rot_z": [[0.6, 0.8, 0], [-0.8, 0.6, 0], [0, 0, 1]],
+}
+ORIENT_DRAW = ["identity"] * 8 + [k for k in ORIENT if k != "identity"]
+LAYOUT_DRAW = [None] * 9 + ["row", "col", "F"]
 
 
 @st.composite
@@ -847,6 +1094,9 @@ def st_base(draw, tier, periodic, fine=False):
         G = draw(st.integers(1, 8))
         mant = draw(st.sampled_from([1.0, 1.5, 3.0, 0.1, 0.7]))
         lattice_cs = _r32(E * mant / G)
+        if lattice_cs >= 1.0 and draw(_chance(2)):
+            # integral coordinates (given as an integer array in some cases)
+            lattice_cs = float(round(lattice_cs))
         org = [draw(st.integers(-3, 3)) for _ in range(3)]
         ints = triples(st.integers(0, G), n)
         case["lattice"] = {"G": G, "org": org}
@@ -863,6 +1113,10 @@ def st_base(draw, tier, periodic, fine=False):
         else:
             off = [E * draw(st.sampled_from([-100.0, 30.0, 100.0])) for _ in range(3)]
         pts = [[_r32(off[a] + E * u[a]) for a in range(3)] for u in U]
+    if E >= 8.0 and draw(_chance(6)):
+        # integral coordinates (both docstring examples pass integers); given as an integer array in some cases
+        pts = [[float(round(x)) for x in p] for p in pts]
+        case["rounded"] = True
     A = np.array(pts, dtype=np.float64).reshape(-1, 3)
 
     # selection
@@ -916,14 +1170,36 @@ def st_base(draw, tier, periodic, fine=False):
     else:
         case["box"] = None
 
+    # orientation of a periodic system
+    if periodic:
+        orient = draw(st.sampled_from(ORIENT_DRAW))
+        case["orient"] = orient
+        if orient != "identity":
+            Mo = np.array(ORIENT[orient], dtype=np.float64)
+            with np.errstate(invalid="ignore"):
+                pts = [[_r32(x) for x in row] for row in (np.array(pts, dtype=np.float64).reshape(-1, 3) @ Mo)]
+            B = [[_r32(x) for x in row] for row in (np.array(B, dtype=np.float64) @ Mo)]
+            case["pts"] = pts
+            case["box"] = B
+            A = np.array(pts, dtype=np.float64).reshape(-1, 3)
+
     # input form
-    inp = draw(st.sampled_from(["f32", "f64", "atoms", "atoms"]))
+    integral = bool(fin.all() and (A == np.round(A)).all() and float(np.abs(A).max()) < 2.0**31)
+    inp = draw(st.sampled_from(["f32", "f64", "atoms", "atoms"] + (["i64"] * 4 if integral else [])))
     case["input"] = inp
+    if inp != "atoms":
+        case["coord_layout"] = draw(st.sampled_from(LAYOUT_DRAW))
+    if integral:
+        case["cs_int"] = draw(st.booleans())
+        case["q_int"] = draw(st.booleans())
+        case["r_int"] = draw(st.booleans())
     if B is not None:
         if inp == "atoms":
             case["box_via"] = draw(st.sampled_from(["attr", "attr", "arg", "both"]))
         else:
             case["box_via"] = "arg"
+        if case["box_via"] in ("arg", "both"):
+            case["box_layout"] = draw(st.sampled_from(LAYOUT_DRAW))
         # the same box array object served an earlier cell list with other values and was then
         # updated in place (successive frames of a trajectory): results must not depend on that
         case["box_reused"] = bool(periodic and draw(st.sampled_from([False, False, True])))
@@ -1036,6 +1312,8 @@ def st_queries(draw, case, tier):
         else:
             q = [lo[a] + draw(u01) * (hi[a] - lo[a]) for a in range(3)]
             q[draw(st.integers(0, 2))] = draw(st.sampled_from([float("nan"), float("inf"), float("-inf")]))
+        if case.get("q_int") and all(math.isfinite(x) and abs(x) < 2.0**24 for x in q):
+            q = [float(round(x)) for x in q]  # given as an integer array if the whole batch is integral
         Q.append([_r32(x) for x in q])
     return Q
 
@@ -1111,6 +1389,8 @@ def st_get_atoms(periodic):
             if case["scalar_radius"] or case["single"]:
                 j = draw(st.integers(0, m - 1))
                 r = draw(st_radius(case, ds[j], diam))
+                if case.get("r_int"):
+                    r = float(math.ceil(r))  # passed as a python int (docstring examples)
                 case["radii"] = [r] * m
                 case["radius_np_scalar"] = draw(st.booleans())
             else:
@@ -1122,6 +1402,8 @@ def st_get_atoms(periodic):
                 case["radii"] = [r if r < 0.88 * hmin else _r32(f * hmin) for r in case["radii"]]
             case["q_f64"] = draw(st.booleans())
             case["r_f64"] = draw(st.booleans())
+            case["q_layout"] = draw(st.sampled_from(LAYOUT_DRAW))
+            case["r_strided"] = draw(_chance(4))
             return case
 
         return gen()
@@ -1147,6 +1429,8 @@ def st_cells(tier):
             case["cell_radii"] = [draw(cr) for _ in range(m)]
         case["q_f64"] = draw(st.booleans())
         case["r_f64"] = draw(st.booleans())
+        case["q_layout"] = draw(st.sampled_from(LAYOUT_DRAW))
+        case["r_strided"] = draw(_chance(4))
         return case
 
     return gen()
@@ -1166,6 +1450,8 @@ def st_adjacency(tier):
         i = int(idx[draw(st.integers(0, len(idx) - 1))])
         ds = _query_distances(case, [[float(x) for x in A32[i]]])
         r = draw(st_radius(case, ds[0], diam))
+        if case.get("r_int"):
+            r = float(math.ceil(r))
         if periodic and not draw(_chance(4)):
             hmin = float(box_heights(B32.astype(np.float64)).min())
             if r >= 0.88 * hmin or draw(_chance(3)):
@@ -1183,7 +1469,11 @@ def _per_case_labels(run):
     """Labels are emitted per query/radius; count each at most once per case."""
 
     def wrapped(case):
-        o = run(case)
+        # NaN / inf / 1e38 inputs make numpy emit RuntimeWarnings inside biotite (box.py); with
+        # PYTHONWARNINGS=error in the caller's environment they would surface as exceptions
+        with warnings.catch_warnings():
+            warnings.simplefilter("ignore", RuntimeWarning)
+            o = run(case)
         o.labels = sorted(set(o.labels))
         return o
 
@@ -1276,6 +1566,130 @@ def run_periodic_large(case):
     return o
 
 
+# --------------------------------------------------------------------------
+# large non-periodic systems: cells holding hundreds of atoms (growth of the per-cell arrays, long
+# worst-case rows), through all three methods
+# --------------------------------------------------------------------------
+def st_open_large(tier):
+    sizes = [300, 800, 1500, 3000, 5000]
+    if tier == "thorough":
+        sizes += [9000, 20000]
+    return st.fixed_dictionaries(
+        {
+            "n": st.sampled_from(sizes),
+            "seed": st.integers(0, 2**31 - 1),
+            "E": st.sampled_from([1.0, 30.0, 400.0]),
+            "cluster_frac": st.sampled_from([0.0, 0.1, 0.3, 0.6]),
+            "grid": st.sampled_from([4, 8, 15]),
+            "selection": st.sampled_from(["none", "none", "partial"]),
+            "input": st.sampled_from(["f32", "f64", "atoms"]),
+        }
+    )
+
+
+def run_open_large(case):
+    import biotite.structure as struc
+    from biotite.structure import CellList
+
+    o = Outcome()
+    rng = np.random.default_rng(case["seed"])
+    n, E = case["n"], float(case["E"])
+    ncl = int(n * case["cluster_frac"])
+    centre = rng.uniform(0.2, 0.8, 3) * E
+    A32 = np.concatenate(
+        [
+            rng.uniform(0, E, (n - ncl, 3)),
+            centre + rng.uniform(-0.004, 0.004, (ncl, 3)) * E,  # one tight cluster: far smaller than a cell
+        ]
+    ).astype(np.float32)
+    A32 = A32[rng.permutation(n)]
+    A = A32.astype(np.float64)
+    sel = np.ones(n, dtype=bool) if case["selection"] == "none" else rng.random(n) < 0.7
+    if not sel.any():
+        sel[0] = True
+    cs = float(np.float32(E / case["grid"]))
+    if case["input"] == "atoms":
+        arg0 = struc.AtomArray(n)
+        arg0.coord = A32.copy()
+    else:
+        arg0 = A32.astype(np.float64) if case["input"] == "f64" else A32.copy()
+    kwargs = {} if case["selection"] == "none" else {"selection": sel.copy()}
+    cl = CellList(arg0, cs, **kwargs)
+    idx = np.floor((A[sel] - A[sel].min(axis=0)) / cs).astype(np.int64)
+    occ = int(np.unique(idx, axis=0, return_counts=True)[1].max())
+    o.label(f"n={n}", "in_" + case["input"], "sel_" + case["selection"], "max_cell_len>=100" if occ >= 100 else "max_cell_len<100")
+
+    qi = rng.integers(0, n, 3)
+    Q32 = np.concatenate(
+        [
+            A[qi],
+            [centre, A.min(axis=0), A.max(axis=0) + 0.3 * cs, [-0.4 * E, 0.5 * E, 1.2 * E]],
+            rng.uniform(0, E, (2, 3)),
+        ]
+    ).astype(np.float32)
+    Q = Q32.astype(np.float64)
+    m = len(Q)
+    # radii up to two cells: m * 5^3 * occ elements in the worst-case array
+    radii = np.array([0.0, 0.004 * E, 0.5 * cs, 1.7 * cs, 0.9 * cs, 2.0 * cs, 1.0 * cs, 0.3 * cs, 1.3 * cs], dtype=np.float32)[:m]
+    if m * 125 * 8 * occ > 4 * MAX_ELEMS_SINGLE:
+        radii = np.minimum(radii, np.float32(0.99 * cs))
+        o.label("radii_capped_one_cell")
+    r = radii.astype(np.float64)
+    scale = max(float(np.abs(A).max()), float(np.abs(Q).max()), E)
+    tol = TOLF * EPS32 * scale
+    d, cheb = ref_open(A, Q)
+    exact0 = (A[None, :, :] == Q[:, None, :]).all(-1)
+    must = ((d < r[:, None] - tol) | exact0) & sel[None, :]
+    may = (np.abs(d - r[:, None]) <= tol) & ~exact0 & sel[None, :]
+    o.ambiguous += int(may.sum())
+    what = f"n={n} get_atoms(cell={cs!r})"
+    res = cl.get_atoms(Q32, radii)
+    rows = split_index_result(o, res, False, m, n, what)
+    if rows is not None:
+        check_rows(o, rows, must, may, n, "get_atoms", what)
+        check_mask_agrees(o, cl.get_atoms(Q32, radii, as_mask=True), rows, False, m, n, what)
+    # cells: superset per axis, nothing unselected, nothing beyond the shell
+    crs = np.array([0, 1, 2, 1, 0, 2, 1, 1, 0], dtype=np.int32)[:m]
+    if m * 125 * 8 * occ > 4 * MAX_ELEMS_SINGLE:
+        crs = np.minimum(crs, 1)
+    dist = crs.astype(np.float64) * cs
+    what = f"n={n} get_atoms_in_cells(cell={cs!r})"
+    res = cl.get_atoms_in_cells(Q32, crs)
+    rows = split_index_result(o, res, False, m, n, what)
+    if rows is not None:
+        for j, row in enumerate(rows):
+            got = np.zeros(n, dtype=bool)
+            got[row] = True
+            miss = (((cheb[j] < dist[j] - tol) | exact0[j]) & sel) & ~got
+            o.check(not miss.any(), "cells_superset_per_axis", lambda: f"{what}: query {j}: atoms {np.flatnonzero(miss)[:5].tolist()} within {dist[j]!r} (per axis) are missing")
+            o.check(not (got & ~sel).any(), "cells_no_unselected", lambda: f"{what}: query {j}: unselected atoms returned")
+            o.check(len(row) == int(got.sum()), "cells_duplicate", lambda: f"{what}: query {j}: indices returned more than once")
+            beyond = got & (cheb[j] > (crs[j] + 2) * cs + tol)
+            o.check(not beyond.any(), "cells_not_beyond_shell", lambda: f"{what}: query {j}: atoms {np.flatnonzero(beyond)[:5].tolist()} are more than {crs[j]} + 2 cells away on one axis")
+        check_mask_agrees(o, cl.get_atoms_in_cells(Q32, crs, as_mask=True), rows, False, m, n, what)
+    # adjacency (threshold below the cell size: 27 cells per atom), only while n * 27 * occ stays small
+    if n <= 1500 and n * 27 * 8 * occ <= 4 * MAX_ELEMS_SINGLE:
+        thr = float(np.float32(0.6 * cs))
+        dd = np.zeros((n, n))
+        for a in range(3):  # per axis: no (n, n, 3) temporary
+            dd += (A[:, a][:, None] - A[:, a][None, :]) ** 2
+        dd = np.sqrt(dd)
+        pair = sel[:, None] & sel[None, :]
+        must_a = ((dd < thr - tol) | np.eye(n, dtype=bool)) & pair
+        may_a = (np.abs(dd - thr) <= tol) & pair & ~np.eye(n, dtype=bool)
+        M = np.asarray(cl.create_adjacency_matrix(thr))
+        what = f"n={n} create_adjacency_matrix(cell={cs!r}, thr={thr!r})"
+        if o.check(M.shape == (n, n) and M.dtype == np.bool_, "adjacency_layout", lambda: f"{what}: shape {M.shape} dtype {M.dtype}"):
+            o.check(not (must_a & ~M).any(), "adjacency_missing", lambda: f"{what}: pairs {np.argwhere(must_a & ~M)[:5].tolist()} are within the threshold but False")
+            o.check(not (M & ~must_a & ~may_a).any(), "adjacency_extra", lambda: f"{what}: pairs {np.argwhere(M & ~must_a & ~may_a)[:5].tolist()} are True but beyond the threshold or unselected")
+            o.check(not ((M != M.T) & ~may_a & ~may_a.T).any(), "adjacency_symmetric", lambda: f"{what}: asymmetric outside the tolerance band")
+        o.label("adjacency_checked")
+    o.mark_nontrivial(occ >= 100)
+    return o
+
+
+run_open_large = _per_case_labels(run_open_large)
+
 SUBS = [
     Sub(
         "get_atoms",
@@ -1305,6 +1719,15 @@ SUBS = [
         clauses="periodic get_atoms exact for large atom counts (size dependent code paths)",
     ),
     Sub(
+        "open_large",
+        st_open_large,
+        run_open_large,
+        quick=32,
+        thorough=640,
+        rule="300..5000 atoms (thorough up to 20000), optionally 10-60 % of them in one cluster far smaller than a cell; non-trivial = a cell holding >= 100 atoms",
+        clauses="get_atoms, get_atoms_in_cells and create_adjacency_matrix exact for cells holding hundreds of atoms (non-periodic)",
+    ),
+    Sub(
         "cells",
         st_cells,
         run_cells,
@@ -1329,11 +1752,20 @@ def _is_unexpected(clause):
     return clause == "unexpected_exception"
 
 
+# Matched on the input class (flag of the case), the clause and the exception type - not on the wording
+# of the message, which is NumPy's in both cases.  The bracketed suffixes are written by this module
+# (_call_nocap / build) and pin the call that failed.
 FINDINGS = {
     "celllist_length_int_overflow": lambda sub, case, clause, message: (
-        _is_unexpected(clause) and bool(case.get("nocap")) and "negative dimensions" in message
+        _is_unexpected(clause)
+        and bool(case.get("nocap"))
+        and message.startswith("ValueError")
+        and message.endswith("[sandboxed call, resource cap lifted]")
     ),
     "selection_not_contiguous": lambda sub, case, clause, message: (
-        _is_unexpected(clause) and bool(case.get("sel_strided")) and "not C-contiguous" in message
+        _is_unexpected(clause)
+        and bool(case.get("sel_strided"))
+        and message.startswith("ValueError")
+        and message.endswith("[CellList constructor, strided selection]")
     ),
 }
